@@ -367,7 +367,7 @@ func CheckMain(p *Prop, pc *ParentCtx) int {
 				break
 			}
 
-			fmt.Printf("  violation: %s [%s]\n", Trunc(v.What, 300), v.Key)
+			fmt.Printf("  violation: %s [%s]\n", Trunc(strings.Join(strings.Fields(v.What), " "), 400), v.Key)
 			fmt.Printf("VIOLATION property=%s replay=%s\n", p.ID, replayPaths[i])
 		}
 
